@@ -25,6 +25,8 @@ CHECKS = {
          "Lean 4 proof (verified ownership analysis) + translator (alias programs with callee summaries) + differential snapshots", "5/C04"),
  "C07": ("Lean theorem noninterference: for any number of threads and EVERY schedule, a thread whose footprint no other thread writes ends each of its turns exactly as in its solo run (same private state, same observations, same shared footprint); witness (decide) for the recorded shared-schema race; per-run obligation that the context configuration is a ContextVar (thread-local). Differential: deterministic settrace scheduler on the real code (all sequential orders, every schedule prefix, random schedules) comparing each thread's outcome with its solo run, configuration and schema fingerprints after the join",
          "Lean 4 proof (non-interference over all schedules) + deterministic scheduler correspondence", "5/C07"),
+ "C09": ("Lean: every clause (keys resolve, resolution idempotent with equal hash, equivalent spellings equal and equally hashed, print/resolve round trip of primitive types, check reflexive, check implies same kind/signedness/width over all ordered pairs) decided exhaustively by `decide +kernel` over the registry tables of numpy, pandas(+pyarrow), polars and pyspark regenerated from the engines of the working tree; intensional lemma for the numeric families at every bit width. Failing-input search evaluates the same clauses on the dump (concrete key / pair); sampled parametrised types",
+         "Lean 4 proof by kernel evaluation over regenerated registry tables (translator tie) + sampled parameterisations", "5/C09"),
 }
 NA = {}
 for i in range(1, 21):
